@@ -102,3 +102,7 @@ func VerifXMPPTransportSetConn(t *XMPPTransport, conn net.Conn) {
 	t.readWriter = newStreamLogger(t.conn, t.logFile)
 	t.decoder = xml.NewDecoder(bufio.NewReaderSize(t.readWriter, maxPacketSize))
 }
+
+// VerifStreamManagerResume runs the reconnection loop of a StreamManager (StreamManager.resume) in the calling
+// goroutine.
+func VerifStreamManagerResume(sm *StreamManager) error { return sm.resume() }
